@@ -1075,6 +1075,39 @@ func checkPrioStop(vd *Verdict, v *prioView) {
 		}
 	}
 
+	// simplified discipline: the order between handlers is not observable, but what Handle
+	// was called with must be written items, each at most once
+	if !sc.plain() {
+		// (a write that was handed over but whose completion the producer had not logged
+		// yet when the run ended still counts: "write-start" marks every attempt)
+		wset := map[int]bool{}
+		for _, it := range v.allWritten() {
+			wset[it] = true
+		}
+
+		for _, r := range v.res.Hist {
+			if r.Kind == simrt.KNote && r.Note == "write-start" {
+				wset[int(r.Val)] = true
+			}
+		}
+
+		seen := map[int]bool{}
+
+		for _, it := range v.gotList {
+			if !wset[it] {
+				vd.failFacts("not-a-subsequence", facts, "Handle was called with %d, which was never written", it)
+				return
+			}
+
+			if seen[it] {
+				vd.failFacts("delivered-twice", facts, "Handle was called twice with item %d", it)
+				return
+			}
+
+			seen[it] = true
+		}
+	}
+
 	// in-order, duplicate-free subsequence per priority
 	if sc.plain() {
 		seen := map[int]bool{}
